@@ -891,6 +891,48 @@ DIALECT_SUBST = {"${VERIFC20SUB_PORT}": "9000", "${VERIFC20SUB_FLAG}": "true", "
                  "${VERIFC20SUB_UNSET:=4460}": "4460", "${VERIFC20SUB_UNSET}": "", "p${VERIFC20SUB_PORT}": "p9000"}
 
 
+# sixth round (seed s6 C20-a): references to variables of any name, in every position an operator writes them - plain
+# (`port: ${PORT}`), between double / single quotes (`password: "${PW}"`, the usual way to keep a secret a string), inside
+# a longer text, with a default - and contents YAML would not read as a string when they stood there unquoted. The
+# reference is resolved in the TEXT of the file (Lean: Config.substitute), so the file is the one that says the contents
+# literally at that place (the TWIN): same reading, same leaf as the literal file and as the property's own variable.
+REF_CONTENTS = ["0815", "007", "1e3", "0x1f", "1.10", "true", "false", "null", "~", "2001-12-14", "yes", "abc", "9000", "",
+                "a b", "-1", "0o17", "1_000", ".inf", "No", "010", "1.0"]
+REF_FORMS = ["%s", '"%s"', "'%s'", "p%s", '"%s s"']
+REFS = {"VERIFC20SUB_PORT": "9000", "VERIFC20SUB_FLAG": "true", "VERIFC20SUB_HOST": "yes"}
+REFS.update({"VERIFC20SUB_R%d" % k: v for k, v in enumerate(REF_CONTENTS) if v != ""})      # R13 is not set at all
+
+
+def ref_of(content):
+    return "${VERIFC20SUB_R%d}" % REF_CONTENTS.index(content)
+
+
+def _ref_twins():
+    tw = {}
+    for v in REF_CONTENTS:
+        for form in REF_FORMS:
+            tw[form % ref_of(v)] = form % v
+    # defaults stand in for an unset / empty variable only; two references in one text
+    tw['"${VERIFC20SUB_UNSET:=0815}"'] = '"0815"'
+    tw["'${VERIFC20SUB_UNSET=007}'"] = "'007'"
+    tw['"${VERIFC20SUB_R13:-true}"'] = '"true"'
+    tw['${VERIFC20SUB_UNSET-1e3}'] = '1e3'
+    tw['"${VERIFC20SUB_R0:=x}"'] = '"0815"'
+    tw['"%s%s"' % (ref_of("0815"), ref_of("007"))] = '"0815007"'
+    tw['%s%s' % (ref_of("9000"), ref_of("0815"))] = '90000815'
+    tw['"%s:%s"' % (ref_of("true"), ref_of("null"))] = '"true:null"'
+    return tw
+
+
+REF_TWINS = _ref_twins()
+DIALECT_SUBST.update(REF_TWINS)
+# references planted at the string options of the real Configuration (dialect_cases): quoted references whose contents
+# are no strings for YAML, a plain one, one with a default
+REF_SITE_TEXTS = ['"%s"' % ref_of("0815"), '"%s"' % ref_of("true"), "'%s'" % ref_of("null"), '"%s"' % ref_of("0x1f"),
+                  '"%s"' % ref_of("1.10"), "'%s'" % ref_of("2001-12-14"), ref_of("abc"), '"${VERIFC20SUB_UNSET:=0815}"',
+                  '"%s s"' % ref_of("007")]
+
+
 _PLAIN_KEY = _re.compile(r"^[A-Za-z_][A-Za-z0-9_.-]*$")
 
 
@@ -1021,11 +1063,19 @@ def dialect_cases(texts=None, sites=None):
     for name, typ, path, rest, dump in (sites or DIALECT_SITES):
         others = [[env_name(p), raw_value(v), v] for p, v in rest]
         ncase = {"fam": "config", "op": "cfg", "rep": 1, "env": others, "at": list(dump)}
-        for text in (texts or DIALECT_POOL):
+        for text in (texts or DIALECT_POOL + REF_SITE_TEXTS):
             tree = build(list(rest) + [(path, "?")])
             fcase = {"fam": "config", "op": "cfg", "rep": 1, "env": [], "at": list(dump),
                      "file": to_yaml(tree, {tuple(path): text})}
-            ecase = {"fam": "config", "op": "cfg", "rep": 2, "env": others + [[env_name(path), text, None]], "at": list(dump)}
+            # a text that refers to variables: the FILE says the reference (the variables are in the process), the
+            # property's own variable carries what the file says once the reference is resolved (the twin)
+            etext = text
+            if text in REF_TWINS:
+                fcase["refs"] = REFS
+                etext = REF_TWINS[text]
+            ecase = {"fam": "config", "op": "cfg", "rep": 2, "env": others + [[env_name(path), etext, None]], "at": list(dump)}
             res.append({"site": name, "type": typ, "path": list(path), "text": text, "file_case": fcase, "env_case": ecase,
                         "default_case": ncase})
+            if etext != text:
+                res[-1]["twin"] = etext
     return res
